@@ -6,11 +6,69 @@ VERIF = os.path.dirname(os.path.dirname(os.path.abspath(__file__)))
 ALL = [f"C{i:02d}" for i in range(1, 21)]
 
 # id -> (technique, level text, level note, design ref)
+TRUST = "Trusted: the Go toolchain, rapid v1.3.0, the harness packages under /verif/harness (reference rules verif/refchess self-tested against published perft numbers on every run that uses it). Exploration only: absence of a counterexample among the generated / enumerated cases, reported with counts, class histogram and samples in the evidence file."
+
 CHECKS = {
- "C01": ("rapid playouts + exhaustive 3-man table, set-equality differential against a reference rules implementation",
-         "Generated-input search: legal-move SETS of the engine (generate, make, InCheck, undo) are compared with an independent mailbox/ray-walking implementation of the FIDE rules at every position of rapid-generated playouts from suite/bench/synthetic/motif roots (carried board and FEN-reloaded board), over the complete K+X v K table, and as perft(1..2) counts incl. the UCI perft command. Exploration, not proof: absence of a counterexample in the explored cases.",
-         "Trusted: verif/refchess (self-tested against published perft numbers on every run), rapid v1.3.0, the Go toolchain. Domain: valid positions as listed, halfmove clock 0..100.",
-         "DESIGN.md section 5 C01"),
+ "C01": ("rapid playouts + exhaustive 3-man table; set-equality differential against a reference rules implementation",
+         "Legal-move SETS of the engine (generate, make, InCheck, undo) are compared with an independent mailbox/ray-walking implementation of the FIDE rules at every position of rapid-generated playouts from suite/bench/synthetic/motif roots (carried board and FEN-reloaded board with raw and normalised en-passant field), over the complete K+X v K table, and as perft(1..2) counts incl. the UCI perft command.",
+         "Domain: valid positions as listed, halfmove clock 0..100.", "DESIGN.md section 5 C01"),
+ "C02": ("rapid playouts; field-by-field differential of every successor against the reference rules, incl. en-passant capturability; UCI position/fen round trip",
+         "At every position of generated playouts (roots incl. constructed en-passant parents: capturer pinned, horizontal pin, push discovering check through the origin square) EVERY legal move is made and the successor compared with the reference successor in placement, side, rights, en-passant target (iff a legal en-passant capture exists), both counters and FEN text; chains are kept; the same through `position ... moves ...` + `fen`.",
+         "Oracle for en-passant capturability: reference legal-move generation.", "DESIGN.md section 5 C02"),
+ "C03": ("rapid nested make/undo paths and exhaustive shallow trees; deep-snapshot round-trip invariant",
+         "Deep snapshot (three placement encodings, rights, en-passant, counters, whole hash history) before make == after undo for every generated pseudo-legal move (legal or not) and the null move at every level of generated paths, complete depth 2-3 make/undo trees, and at every unwinding level of the path.",
+         "Hook board.VerifSnapshot (build tag verif) copies all fields.", "DESIGN.md section 5 C03"),
+ "C04": ("rapid histories with null moves; invariant incremental==from-scratch hash, representation consistency, metamorphic transposition pairs",
+         "After every step of generated histories (legal and null moves) the incremental hash equals the from-scratch hash (hook) and the hash of the re-parsed FEN, the three placement encodings agree, recurrences of a reference-identical position carry the same hash; re-ordered 4-ply sequences that the reference says reach the same position must hash equally.",
+         "Hook board.VerifCalcHash; position identity from the reference.", "DESIGN.md section 5 C04"),
+ "C05": ("rapid positions x exhaustive 2^15 encodings; differential IsPseudoLegal vs generator membership; generated GUI move strings",
+         "For generated positions ALL 32768 encodings are swept: IsPseudoLegal(m) iff the generator emits m. Generated move strings (well-formed, near misses, malformed) through `position fen F moves s` must leave the position unchanged or play exactly the generated move they name.",
+         "The engine's generator is the reference here (C01 checks it against the rules).", "DESIGN.md section 5 C05"),
+ "C06": ("rapid roots x limits x abort-point sweeps (every k as WithNodes(k)) x table sizes x stop-channel timings; oracle = reference legality + finality + snapshot equality; UCI go argument fuzzing",
+         "Searches on generated roots with history (incl. mates, stalemates, clock>=100, third occurrence, single reply) under depth / hard / soft node limits, every node count k in a range as abort point, five table sizes, stop channel closed before / inside an info line / by a timer, engine instances reused: returned move null or legal, null only on final roots, completed search on a final root returns (null, 0 | mated), board snapshot unchanged, follow-up search works; `go` with generated numeric arguments on the real driver. Thorough adds the spsa build with drawn in-range parameters.",
+         "Finality (no legal move, clock>=100, third occurrence) decided by the reference.", "DESIGN.md section 5 C06"),
+ "C07": ("rapid game fragments on carried-over tables; parsed info lines replayed on the reference rules",
+         "Every info line of generated searches (fresh, game-warmed and 1024-bucket tables, via search.Go and via the UCI driver with Ponder on) must match the documented format; every pv replays legally from the root on the reference; depths strictly increase, nodes never decrease; returned move == first move of the last non-empty pv; ponder move legal after it.",
+         "Line grammar taken from the format strings in search.go / uci.go.", "DESIGN.md section 5 C07"),
+ "C08": ("rapid whole games on three engine instances, two of them concurrent under load (thorough: race detector); differential on results and info lines; soft-limit -> hard-budget replay",
+         "Per game three engines whose tables carry over: A and A' get identical requests and run concurrently under machine load and must agree on score, move, ponder, nodes and all info lines (time masked); B replays each soft-limited search with WithNodes(N_A) and must agree on this and all later moves; node budgets never exceeded.",
+         "SoftTime excluded (wall clock). Replay clause judged only when A returned a move.", "DESIGN.md section 5 C08"),
+ "C09": ("exhaustive small-material tables + rapid boxed-king / en-passant constructions; differential against reference legal-move count",
+         "IsCheckmate (asked only in check) and IsStalemate (only when not) are compared with 'reference has no legal move' over the complete 3-man tables, twelve 4-man classes (complete in thorough, 1/8 slices in quick) and generated dense / boxed-king / en-passant positions with engine-normalised en-passant field.",
+         "Tables assembled field by field (no FEN reader on that path).", "DESIGN.md section 5 C09"),
+ "C10": ("model-based stateful generation of game histories; invariant Threefold() == min(3, occurrences in a history list of reference identities); UCI leg",
+         "Generated histories with recurrence-seeking actions (reverse, replay cycle, irreversible move, transient en-passant, lost rights): after every move Threefold() equals the count of the reference identity (placement, side, rights, en-passant capturability) in the history, capped at 3; the same games through `position ... moves` + `go depth 2` (bestmove 0000 iff game over). Start FENs with raw uncapturable en-passant target are a separate class with one recorded open finding.",
+         "Known finding key start-fen-raw-ep listed in KNOWN_FINDINGS.txt.", "DESIGN.md sections 5 C10 and 6"),
+ "C11": ("rapid round trips (position and text), UCI acceptance/rejection sessions, grammar mutation fuzzing; native go fuzz target in thorough; epd.Parse robustness in a scratch tuner module",
+         "parse(print(b)) == b along playouts; print(parse(s)) == s and equals the reference reading for canonical FENs incl. heavy promoted material and both en-passant policies; `position fen s` + `fen` prints s and rejected commands leave the position in place; mutated / hostile / raw byte strings never panic and both entry points agree; thorough adds native coverage-guided fuzzing.",
+         "Reference FEN reader/printer in verif/refchess.", "DESIGN.md section 5 C11"),
+ "C12": ("exhaustive enumeration against a ray-walking / offset-list oracle",
+         "All 64 squares x all subsets of the relevant occupancy (102400 rook + 5248 bishop) x outside fillings; all leaper squares; pawn sets; all 4096 InBetween pairs.",
+         "Geometry oracle written in the harness.", "DESIGN.md section 5 C12"),
+ "C13": ("schedule exploration: systematic command x phase sweep and rapid grammar-generated sessions against a controllable mock search and the real search, race detector on; transcript oracle; goroutine-leak and deadlock rules",
+         "In-process driver on pipes: each go answered by exactly one bestmove after its info lines, readyok k never before isready k and totals equal, no torn line, Run returns after quit/EOF with no driver goroutine left, no panic, no race report. The harness owns WHEN commands arrive relative to the search (before start, after j info lines, coincident with the finish signal, after bestmove).",
+         "Go scheduler interleavings inside the driver are sampled (repetition, GOMAXPROCS 1/2/4/16, race detector), not enumerated.", "DESIGN.md section 5 C13"),
+ "C14": ("exhaustive boundary grid + rapid random clocks; inequality oracle; driver leg with recording / blocking mock search",
+         "hard > 0, hard <= remaining, margin kept when more than the margin remains, movetime => soft == hard == movetime, opponent's clock irrelevant; the driver passes the computed soft time and the hard deadline fires.",
+         "Hook uci.VerifTimeLimits.", "DESIGN.md section 5 C14"),
+ "C15": ("model-based stateful generation (store/probe/clear/resize/new-search) against a map model with free victim choice; direct lane-matcher differential",
+         "After every store all modelled slots of the bucket are probed: hits equal the model (mate values re-based), at most one other slot vanished, the stored slot hits (keep-deeper refusal honoured), unmodelled non-zero signatures miss; zero signatures judged only by the clauses the property keeps.",
+         "Hooks transp.VerifBucketIx / VerifMatch64.", "DESIGN.md section 5 C15"),
+ "C16": ("rapid positions x hash-move candidates x trained/saturated rankers, nested picker use on the shared move store; exhaustive one-step history table",
+         "Multiset of picker yields == set of generated moves, hash move first iff pseudo-legal, YieldedMoves == delivered prefix, also when pickers are nested as in the search; all ranker weights stay in their bands after generated FailHigh sequences; every stored value x every int16 bonus keeps |value| <= MaxHistory for the three stores.",
+         "Generator as reference for the move set.", "DESIGN.md section 5 C16"),
+ "C17": ("rapid positions; metamorphic relations (mirror, non-positional state, no hidden state, UCI eval)",
+         "Eval(b) == Eval(mirror(b)); unchanged by rights / en-passant / fullmove / history / intervening evaluations / make+undo; UCI eval prints the same number.",
+         "Mirror computed on reference positions.", "DESIGN.md section 5 C17"),
+ "C18": ("rapid battery / dense positions x every legal move x threshold sets straddling every attainable balance; differential against a recursive exchange minimax with all tie-breaks",
+         "SEE(b,m,t) == (v >= t) for one v of the reference's attainable balances, for all tested thresholds; monotone.",
+         "Reference exchange minimax in the harness; piece values read from the engine.", "DESIGN.md section 5 C18"),
+ "C19": ("rapid positions and coefficient-subset choices in a scratch build of the tuner packages; numeric differential with stated envelope; bijection checks with an independent reflective walker",
+         "|float eval - int eval| < 2.25 (white relative) on generated positions loaded without hash; SetVector/ToVector/TunedParams/NullVector address the same coefficient at the same index for every drawn target subset; EngineCoeffs == eval.Coefficients.",
+         "tuning/epd/checksum copied unchanged into a scratch module (other tuner deps unavailable offline).", "DESIGN.md section 5 C19"),
+ "C20": ("exhaustive n-range permutation/partition checks + rapid generated files read end to end through the chunker",
+         "shuffleIndex is a permutation for every n up to the stated bound and sampled large n, many epochs; Batches/Chunks partition; generated files (blank lines, long lines, >32 MiB) deliver every non-blank line exactly once over all chunks and over arbitrary sub-ranges.",
+         "Files in the documented format (newline-terminated, lines < 4 KiB).", "DESIGN.md section 5 C20"),
 }
 
 PENDING_REASON = "check not built yet in this revision (work in progress; the technique applies, see DESIGN.md)"
@@ -38,7 +96,7 @@ def main():
             "replay_cmd_template": f"./run {pid} --replay {{path}}",
             "engine": "rapid-harness",
             "level_claimed": {"category": "exploration", "text": text, "design_ref": ref},
-            "level_note": note,
+            "level_note": note + " " + TRUST,
             "technique": tech,
         })
     m = {
